@@ -150,23 +150,26 @@ func c18runOnce(c c18case, nearIn time.Duration) (string, time.Duration, bool) {
 		ctx, endCtx = v, v.end
 	case near:
 		nearDeadline = time.Now().Add(nearIn)
-		cc, cancel := context.WithDeadline(context.Background(), nearDeadline)
+		// contexts carry a cause of their own wherever the API allows one: what RetryWithCtx reports must match the
+		// context's ERROR (ctx.Err(): Canceled / DeadlineExceeded), whatever cause its owner attached
+		cc, cancel := context.WithDeadlineCause(context.Background(), nearDeadline, errors.New("owner's cause: too slow"))
 		ctx, cancelAll = cc, cancel
 		endCtx = func(error) { cancel() }
 	case c.ctx[0] == 'h':
-		cc, cancel := context.WithDeadline(context.Background(), time.Now().Add(time.Hour))
-		ctx, cancelAll = cc, cancel
-		endCtx = func(error) { cancel() }
+		cc0, cancel0 := context.WithDeadlineCause(context.Background(), time.Now().Add(time.Hour), errors.New("owner's cause: hour over"))
+		cc, cancel := context.WithCancelCause(cc0)
+		ctx, cancelAll = cc, func() { cancel(nil); cancel0() }
+		endCtx = func(error) { cancel(errors.New("owner's cause: gave up")) }
 	case c.ctx[0] == 'D':
-		cc, cancel := context.WithDeadline(context.Background(), time.Now().Add(-time.Second))
+		cc, cancel := context.WithDeadlineCause(context.Background(), time.Now().Add(-time.Second), errors.New("owner's cause: late from the start"))
 		ctx, cancelAll = cc, cancel
 		endCtx = func(error) { cancel() }
 	default:
-		cc, cancel := context.WithCancel(context.Background())
-		ctx, cancelAll = cc, cancel
-		endCtx = func(error) { cancel() }
+		cc, cancel := context.WithCancelCause(context.Background())
+		ctx, cancelAll = cc, func() { cancel(nil) }
+		endCtx = func(error) { cancel(errors.New("owner's cause: shutting down")) }
 		if c.ctx[0] == 'C' {
-			cancel()
+			cancel(errors.New("owner's cause: never mind"))
 		}
 	}
 	defer cancelAll()
